@@ -79,18 +79,36 @@ Theorem C10_json_number_is_cue_literal : forall t n, parse_number t = Some (n, [
 Proof. exact json_number_is_cue_literal. Qed.
 Print Assumptions C10_json_number_is_cue_literal.
 
-(* same value, exactly (coefficient and exponent), inside apd's exponent range *)
+(* the complete description: inside apd's exponent range the same value, exactly (coefficient
+   and exponent); outside it the literal is an error *)
+Theorem C10_cue_read_json_number : forall t n, parse_number t = Some (n, []) ->
+  cue_read_number t = if num_in_range n then Some (jnum_is_int n, cue_dec_of n) else None.
+Proof. exact cue_read_json_number. Qed.
+Print Assumptions C10_cue_read_json_number.
+
 Theorem C10_json_number_is_cue_number : forall t n,
   parse_number t = Some (n, []) -> num_in_range n = true ->
-  cue_read_number t = Some (jnum_is_int n, CFin (cue_dec_of n)).
+  cue_read_number t = Some (jnum_is_int n, cue_dec_of n).
 Proof. exact json_number_is_cue_number. Qed.
 Print Assumptions C10_json_number_is_cue_number.
 
-(* F11 *)
+(* never a silently different value, never NaN: whatever cue reads is the number as written *)
+Theorem C10_cue_read_number_exact : forall t n k d,
+  parse_number t = Some (n, []) -> cue_read_number t = Some (k, d) ->
+  k = jnum_is_int n /\ d = cue_dec_of n.
+Proof. exact cue_read_number_exact. Qed.
+Print Assumptions C10_cue_read_number_exact.
+
+Theorem C10_json_number_out_of_range_rejected : forall t n,
+  parse_number t = Some (n, []) -> num_in_range n = false -> cue_read_number t = None.
+Proof. exact json_number_out_of_range_rejected. Qed.
+Print Assumptions C10_json_number_out_of_range_rejected.
+
+(* C10-exponent-range-rejected: valid JSON numbers (1e100001, 1e2147483648) are refused *)
 Theorem C10_number_exponent_refuted :
-  (exists t n, parse_number t = Some (n, []) /\ dexp (jnum_dec n) = 100001%Z /\
-               cue_read_number t = Some (false, CFin {| dneg := false; dcoeff := 1; dexp := 0 |})) /\
-  (exists t n, parse_number t = Some (n, []) /\ cue_read_number t = Some (false, CNaN)).
+  (exists t n, parse_number t = Some (n, []) /\ dexp (jnum_dec n) = 100001%Z /\ cue_read_number t = None) /\
+  (exists t n, parse_number t = Some (n, []) /\ cue_read_number t = None /\
+               jexp n = Some 2147483648%Z).
 Proof. exact number_exponent_refuted. Qed.
 Print Assumptions C10_number_exponent_refuted.
 
